@@ -207,8 +207,10 @@ let oracle_c08_case script trace =
                 if (not noop) && not (tp_cal_hyps_ok tp_src_stride_round tp_src_lookback base tab rg (tp_upd_begin (zi "b") clear pre) (zi "e")) then
                   Some "calendar-hypotheses-not-met (table / exists-exactly-once check failed)"
                 else
-                match tp_cal_step_ok base tab
-                        (List.map (fun (_, dd, trs) -> (dd, trs)) f.f_ranges)
+                (* where to look is asked of the WRITTEN ranges of every period of the case (tp_spec_bounds), not of
+                   anything the implementation produced *)
+                let allr = Hashtbl.fold (fun _ g acc -> List.map (fun (_, dd, trs) -> (dd, trs)) g.f_ranges @ acc) fx [] in
+                match tp_cal_step_ok base tab allr rg
                         f.f_prefer incs excs (zi "b") (zi "e") clear probes pre post ins with
                 | None -> None
                 | Some (t, cls) -> Some (Printf.sprintf "calendar t=%s class=%s" (zs t) (zs (tp_class_name cls)))
